@@ -268,6 +268,28 @@ def check(tier, seed):
             cur = nxt
     if nontrivial == 0:
         raise MachineryDefect("no operation succeeded")
+    # --- attribute-preservation obligations on every rebuild site (syntactic, per function, for all inputs) -------------------
+    from vf import ctorcheck
+    funcs = ctorcheck.rebuild_functions()
+    if len(funcs) < 10:
+        raise MachineryDefect("only %d rebuild sites found (pattern out of date?)" % len(funcs))
+    backend = "constructor-argument analysis"
+    for label, f in funcs:
+        obs = ctorcheck.obligations(f, label)
+        run.cov["functions_under_contract"].append(label + " (attribute preservation)")
+        for o in obs:
+            run.cov["obligations"] += 1
+            run.cov["backends"][backend] = run.cov["backends"].get(backend, 0) + 1
+            if o["holds"] is True:
+                run.cov["discharged"] += 1
+            elif o["holds"] is None:
+                run.cov["undecided"].append({"obligation": o["id"], "status": "not analysable", "reason": o["detail"]})
+                run.cov["degraded_functions"].append({"function": label, "reason": o["detail"]})
+            else:
+                run.violation(o["id"], "rebuilt %s loses the source's `%s`: %s" % (o["cls"], o["param"], o["detail"]),
+                              {"function": label, "class": o["cls"], "parameter": o["param"], "detail": o["detail"]}, False,
+                              extra={"obligation": o["id"], "solver": backend, "solver_status": "constructor call does not derive the parameter from the source element"})
+    run.sample({"obligation": "ASTTypeBuilder._extend_field#0:Field.python_name", "meaning": "Field(...) built by _extend_field passes python_name read from field_def"})
     run.cov["evaluations"] = n
     run.cov["distinct_nontrivial"] = nontrivial
     run.cov["rule"] = "clone, %d visibility predicates, camel-casing and %d extension documents: each on a fresh source, in sequences of 2-3 on the SAME source, and " \
@@ -276,7 +298,8 @@ def check(tier, seed):
                                                        "fix_type_references", "Schema._replace_types_and_directives", "ASTTypeBuilder._extend_*"], "bound": "%d operation applications" % n})
     run.sample({"sequence": ["hide-type-Cat", "clone", "extend-0"], "contracts": ["closed(result)", "snapshot(source) unchanged", "removed unreachable", "untargeted preserved"]})
     run.trusted("vf/ref_sdl.closed / snapshot")
-    return run.finish("other", "bounded stand-in: data-structure invariants (closed registry, source unmodified, removed elements unreachable, untargeted "
+    return run.finish("other", "attribute-preservation obligations on every rebuild site (constructor-argument analysis of the real source, for all inputs) + "
+                               "bounded stand-in: data-structure invariants (closed registry, source unmodified, removed elements unreachable, untargeted "
                                "attributes preserved) as postconditions of every operation over operation sequences",
                       checker_cmd="./check C14 --tier %s" % tier)
 
